@@ -261,8 +261,20 @@ def body(chk):
         chk.infra.append('unparsed interface: %s' % e)
         return
     cs = c_signatures()
-    w = chk.world(units=['cmasa'])
-    irdefs = {n: f for n, f in w.prog.functions.items() if not n.startswith('_Z') and '::' not in n}
+    try:
+        w = chk.world(units=['cmasa'])
+        irdefs = {n: f for n, f in w.prog.functions.items() if not n.startswith('_Z') and '::' not in n}
+    except RuntimeError as e:
+        # clang refuses a definition whose C prototype conflicts with the declaration in masa.h (g++ only warns when the definition sits in a
+        # namespace): that IS a declaration/definition mismatch; the comparison below then runs on the source signatures alone
+        conflicts = sorted(set(re.findall(r"conflicting types for \W{1,3}(\w+)", str(e))))
+        if not conflicts:
+            raise
+        chk.notes.append('clang rejects cmasa.cpp: conflicting types for %r; IR cross-check of the source signatures skipped' % conflicts)
+        irdefs = {n: None for n in cs}
+        for n in conflicts:
+            chk.add(framework.Ob('header:%s:definition-compiles-against-its-declaration' % n, 'prop', '(assert true)\n(check-sat)\n', 'unsat',
+                                 dict(obligation='masa.h declaration and cmasa.cpp definition of %s have conflicting types' % n, diagnostic=str(e)[-600:]), None, 'header:%s' % n, (), family='header'))
     chk.extra_cov['bind_c_interfaces'] = len(fort)
     chk.extra_cov['header_declarations'] = len(hdr)
     chk.extra_cov['c_definitions'] = len(irdefs)
@@ -270,6 +282,8 @@ def body(chk):
     # source-level signature of each definition agrees with the IR signature (guards the text parser)
     for n, (ret, kinds) in cs.items():
         f = irdefs.get(n)
+        if f is None and n in irdefs:
+            continue            # no IR (see above)
         ok = f is not None and [p['t'] for p in f['params']] == [IRK.get(k) for k in kinds] and f['ret'] == {'int': 'i32', 'double': 'f64', 'void': 'void'}.get(ret)
         chk.add(framework.Ob('definition:%s:source-signature==IR-signature' % n, 'prop', '(assert %s)\n(check-sat)\n' % ('false' if ok else 'true'), 'unsat',
                              dict(obligation='cmasa.cpp signature of %s matches its IR' % n, kinds=kinds), None, 'definition:%s' % n, [n], family='definition'))
